@@ -356,6 +356,8 @@ def run(ctx: Ctx):
     # shallow fusion: each component keeps its own state through split / extract / mix / merge
     from .search_common import fusion_component_lineage
     fusion_component_lineage(ctx, "S3")
+    from .search_common import eos_is_stored_normalised as _eosn
+    _eosn(ctx, ctx.pkg.func("_decoding::BeamSearch.__init__"), "S12")
     from .search_common import initial_state_reaches_the_model as _isr
     _isr(ctx, ctx.pkg.func("_decoding::BeamSearch.forward"), "S11")
     plumbing(ctx, "S1")
